@@ -2,9 +2,9 @@
 from __future__ import annotations
 from engine.registry import Registry
 from engine import sortmodel, polymodel
-from contracts import option, sorting, align, compare, order_lemmas, leading, dispatch, construct, dispatchfn, baseclass, derivative, division, statics, call, codec, shapefn, display
+from contracts import option, sorting, align, compare, order_lemmas, leading, dispatch, construct, dispatchfn, baseclass, derivative, division, statics, call, codec, shapefn, display, polynomial
 
-_CONTRACT_MODULES = [option, sorting, align, compare, leading, dispatch, construct, dispatchfn, baseclass, derivative, division, call, codec, shapefn]
+_CONTRACT_MODULES = [option, sorting, align, compare, leading, dispatch, construct, dispatchfn, baseclass, derivative, division, call, codec, shapefn, polynomial]
 
 ALL_CONTRACTS = {}
 for _m in _CONTRACT_MODULES:
@@ -193,7 +193,7 @@ PROPS = {
     "C09": dict(level="other", contracts=["numpoly.ndpoly.__getitem__", "numpoly.ndpoly.__array_finalize__"] + [
                     f"numpoly.{f}" for f in ("reshape", "transpose", "repeat", "tile", "expand_dims", "diag", "diagonal", "atleast_1d",
                                              "atleast_2d", "atleast_3d", "split", "array_split", "hsplit", "vsplit", "dsplit",
-                                             "concatenate", "stack", "hstack", "vstack", "dstack", "moveaxis")],
+                                             "concatenate", "stack", "hstack", "vstack", "dstack", "moveaxis", "where")],
                 explanation="ndpoly.__getitem__ (any index expression) rebuilds the result from the polynomial's own rows and names "
                 "with EVERY coefficient column indexed by the same index. The 15 raw movers (reshape, transpose, repeat, tile, "
                 "expand_dims, atleast_1/2/3d, diag, diagonal, split family) are proved to hand the whole raw storage of their operand "
@@ -223,7 +223,8 @@ PROPS = {
                 explanation="isconstant/tonumpy (on which the numeric division family and every 'constant' clause rest) are proved; "
                 "the catalogue of mirrored functions on constants is a bounded run-time check against numpy on plain arrays "
                 "(conc/checks_c11.py).", trusted_base=COMMON_TRUSTED),
-    "C12": dict(level="other", contracts=["numpoly.polynomial_from_attributes", "numpoly.clean_attributes", "numpoly.ndpoly.astype"],
+    "C12": dict(level="other", contracts=["numpoly.polynomial_from_attributes", "numpoly.clean_attributes", "numpoly.ndpoly.astype",
+                                          "numpoly.polynomial", "numpoly.aspolynomial"],
                 explanation="Definedness ghost state: polynomial_from_attributes (through which every constructor and operation "
                 "returns) is proved to write every coefficient on every path (compiled setter only under its precondition, numpy "
                 "fallback, empty case) and to carry the requested dtype; clean_attributes requires defined input. The dtype "
@@ -277,7 +278,8 @@ PROPS = {
         level="other",
         contracts=["numpoly.remove_redundant_coefficients", "numpoly.remove_redundant_names", "numpoly.postprocess_attributes",
                    "numpoly.polynomial_from_attributes", "numpoly.clean_attributes", "numpoly.ndpoly", "numpoly.ndpoly.exponents",
-                   "numpoly.ndpoly.coefficients", "numpoly.ndpoly.values", "numpoly.ndpoly.__array_finalize__", "numpoly.ndpoly.todict"],
+                   "numpoly.ndpoly.coefficients", "numpoly.ndpoly.values", "numpoly.ndpoly.__array_finalize__", "numpoly.ndpoly.todict",
+                   "numpoly.polynomial", "numpoly.aspolynomial"],
         trusted_base=COMMON_TRUSTED + [
             "ndpoly.__new__ and the accessors .exponents/.coefficients/.values are verified from their source (contracts/codec.py) "
             "against the model engine/polymodel.py uses for them at call sites; numpy axioms of engine/codecmodel.py",
@@ -295,17 +297,16 @@ PROPS = {
                     "(both compiled and numpy path, and the empty case). clean_attributes: cannot fail on a WF polynomial under any "
                     "option setting and keeps the abstract value. Regeneration from raw view / todict and WF of API results: "
                     "bounded run-time checks.",
-        not_decided=["regeneration through polynomial(raw structured array) / todict (bounded)", "compose_polynomial_array (bounded)"],
+        not_decided=["regeneration through polynomial(raw structured array) (bounded)", "compose_polynomial_array, sympy input (bounded)"],
     ),
     "C07": dict(
         level="other",
         contracts=["numpoly.greater", "numpoly.greater_equal", "numpoly.less", "numpoly.less_equal",
-                   "numpoly.maximum", "numpoly.minimum", "numpoly.equal", "numpoly.not_equal", "numpoly.glexsort"],
+                   "numpoly.maximum", "numpoly.minimum", "numpoly.equal", "numpoly.not_equal", "numpoly.glexsort", "numpoly.where"],
         lemmas=[order_lemmas.obligations],
         trusted_base=COMMON_TRUSTED + [
-            "assumed contract numpoly.align_polynomials / align_exponents (fresh results sharing rows, names, shape; "
-            "each denotes its operand) - to be discharged under C04",
-            "assumed contract numpoly.where at abstract-value level - to be discharged under C09",
+            "contracts of align_polynomials / align_exponents (proved under C04)",
+            "numpoly.where: proved from its source (one mask for every column); value level through bridge B6",
             "assumed contracts of ndpoly.coefficients / .exponents / .values / .ravel (baseclass model, engine/polymodel.py)",
             "numpy ufunc / masked-assignment / zeros / ones axioms (engine/polymodel.py)"],
         assumptions=["A1: coefficients are mathematical reals (no NaN, no complex order)",
